@@ -27,7 +27,8 @@ Ref(b, h) == Run(Recs[b].body, h, <<>>)
 Defined(b, h) == Ref(b, h).ok /\ TailDet(Recs[b].body, h, <<>>)
 Static(b) == {<<Recs[b].code.deps[j].obj, Recs[b].code.deps[j].sig.name>> : j \in 1..Len(Recs[b].code.deps)}
 \* NOTIFY signal of a property as declared in the class library; these have none / cannot be set
-Immutable == {"konst", "cptr", "rdonly", "quiet"}
+\* (a read-only property WITH a NOTIFY signal -- rdonly, and fin, which is FINAL on top -- changes from inside the object)
+Immutable == {"konst", "cptr", "quiet", "finq"}
 NotifyOf(p) == p \o "Changed"
 Listens(b, o, sig, ob) == <<o, sig>> \in Static(b) \/ \E j \in 1..Len(ob) : ob[j].on /\ ob[j].obj = o /\ ob[j].sig = sig
 Update(b, h, ob) == LET r == RunTir(Recs[b].code, ob, h) IN
